@@ -235,6 +235,55 @@ where
     None
 }
 
+/// commitment_with_proof strings assembled from PUBLIC information for a point the prover cannot open, each
+/// consistent with what a verifier would recompute if it lost some terms of
+/// `Cbar = Q_2*s^ + sum J_i*m^_i - C*c`: everything after the first zero response (so `s^ = 0` gives the identity),
+/// everything after a zero `m^_j`, the `- C*c` term alone, or all of them (all-zero responses). The challenge is the
+/// hash of (C, that truncated Cbar). A correct verifier refuses every one.
+pub fn forged_commitments<CS: BbsCiphersuite>(h: &mut H, m: usize) -> Vec<(&'static str, Vec<u8>)>
+where
+    CS::Expander: for<'a> ExpandMsg<'a>,
+{
+    use bls12_381_plus::group::Curve;
+    use bls12_381_plus::G1Projective;
+    use zkryptium::bbsplus::generators::Generators;
+    use zkryptium::utils::util::bbsplus_utils::{calculate_blind_challenge, ScalarExt};
+    let gens = Generators::create::<CS>(m + 1, Some(&[b"BLIND_", CS::API_ID_BLIND].concat())).values;
+    let rs = |h: &mut H| -> Scalar {
+        let mut a = [0u8; 32];
+        a.copy_from_slice(&rand_scalar_bytes(h));
+        Scalar::from_be_bytes(&a).unwrap()
+    };
+    let mut out = Vec::new();
+    let c_pt = G1Projective::GENERATOR * rs(h);
+    let mut variants: Vec<(&'static str, Vec<Scalar>, usize, bool)> = Vec::new(); // (name, responses s^ m^.., terms kept, keep the C term)
+    let mut r: Vec<Scalar> = (0..m + 1).map(|_| rs(h)).collect();
+    variants.push(("forged_commit_term_dropped", r.clone(), m + 1, false));
+    r[0] = Scalar::ZERO;
+    variants.push(("forged_zero_first_response", r.clone(), 0, false));
+    if m >= 1 {
+        let mut r2: Vec<Scalar> = (0..m + 1).map(|_| rs(h)).collect();
+        r2[m] = Scalar::ZERO;
+        variants.push(("forged_zero_last_response", r2, m, false));
+    }
+    variants.push(("forged_all_zero_responses", vec![Scalar::ZERO; m + 1], 0, false));
+    for (nm, resp, kept, keep_c) in variants {
+        let mut cbar = G1Projective::IDENTITY;
+        for i in 0..kept.min(gens.len()) {
+            cbar += gens[i] * resp[i];
+        }
+        let _ = keep_c;
+        let c = match calculate_blind_challenge::<CS>(c_pt, cbar, &gens, Some(CS::API_ID_BLIND)) { Ok(c) => c, Err(_) => continue };
+        let mut b = c_pt.to_affine().to_compressed().to_vec();
+        for x in &resp {
+            b.extend_from_slice(&x.to_be_bytes());
+        }
+        b.extend_from_slice(&c.to_be_bytes());
+        out.push((nm, b));
+    }
+    out
+}
+
 pub fn c06<CS: BbsCiphersuite>(h: &mut H)
 where
     CS::Expander: for<'a> ExpandMsg<'a>,
@@ -270,6 +319,12 @@ where
                 h.expect(!d.is_ok(), "C06.small_order_decode", "Commitment::from_bytes decoded a commitment that is not in the prime-order group", &[h.last()]);
                 let v = devc::<CS>(h, Some(&cwp), 1);
                 h.expect(!v.is_ok(), "C06.small_order_validate", "deserialize_and_validate_commit accepted a commitment that is not in the prime-order group", &[h.last()]);
+            }
+        }
+        // forgeries from public information that are consistent with a verifier losing terms of its recomputation
+        for mm in [0usize, 1, m.max(2)] {
+            for (class, cwp) in forged_commitments::<CS>(h, mm) {
+                refuse(h, class, &cwp);
             }
         }
         // a whole 32-octet slot that is NOT a canonical scalar inserted at every scalar boundary
